@@ -10,6 +10,7 @@ import OdfModel.XhtmlLemmas
 import OdfModel.XhtmlText
 import OdfModel.XhtmlEscape
 import OdfModel.Moin
+import OdfModel.MoinLemmas
 namespace OdfModel.Props.C18
 open OdfModel OdfModel.Xhtml OdfModel.Generated.Xhtml
 
@@ -546,6 +547,30 @@ theorem finding_moin_whitespace_inline :
     Moin.toString moinStyles (moinContent [.elem qP [] [.text [97], .elem qSpan [] [.text [32]], .text [98]]]) =
       .ok [97, 98, 10] := by
   rfl
+
+
+/-- the hypotheses of `Moin.moin_total_complete_partial` are satisfiable: `<p>a<span>b</span><s/></p><h outline-level="2">c</h>` -/
+example : ∃ out, Moin.toString moinStyles (moinContent
+      [.elem qP [] [.text [97], .elem qSpan [] [.text [98]], .elem qS [] []], .elem qH [(Moin.kOutline, [50])] [.text [99]]]) = .ok out ∧
+    (Moin.nonWs [97, 98, 99]).Sublist (Moin.nonWs out) := by
+  have nb : ∀ q : Str, q = qSpan ∨ q = qS → Moin.notBlock q := by
+    intro q h; rcases h with rfl | rfl <;> (refine ⟨?_, ?_, ?_, ?_, ?_⟩ <;> decide)
+  have hp : Moin.MPara (.elem qP [] [.text [97], .elem qSpan [] [.text [98]], .elem qS [] []]) :=
+    .mk _ _ _ (Or.inl rfl) (Or.inl rfl)
+      (.cons _ _ (.text _) (.cons _ _ (.markup qSpan [] _ (nb _ (Or.inl rfl)) (by decide) (.cons _ _ (.text _) .nil))
+        (.cons _ _ (.leaf qS [] [] .text_s (nb _ (Or.inr rfl)) (by decide) (by decide)) .nil)))
+  have hh : Moin.MPara (.elem qH [(Moin.kOutline, [50])] [.text [99]]) :=
+    .mk _ _ _ (Or.inr rfl) (Or.inr ⟨2, by decide⟩) (.cons _ _ (.text _) .nil)
+  have hall : ∀ n ∈ [Node.elem qP [] [.text [97], .elem qSpan [] [.text [98]], .elem qS [] []],
+      Node.elem qH [(Moin.kOutline, [50])] [.text [99]]], Moin.MPara n := by
+    intro n hn
+    rcases List.mem_cons.mp hn with rfl | hn
+    · exact hp
+    · rcases List.mem_cons.mp hn with rfl | hn
+      · exact hh
+      · cases hn
+  exact Moin.moin_total_complete_partial moinStyles (moinContent _) {}
+    (.elem Moin.tBody [] [.elem qText [] _]) [] (.elem qText [] _) [] _ rfl rfl rfl rfl hall
 
 
 end OdfModel.Props.C18
